@@ -52,7 +52,7 @@ ASSUMPTIONS = [
 
 BOUNDS = {
     "quick": dict(depth=3, call_faults=2, total_faults=2, graph_depth=6, value_shards=48),
-    "thorough": dict(depth=4, call_faults=2, total_faults=2, graph_depth=8, value_shards=192),
+    "thorough": dict(depth=4, call_faults=2, total_faults=2, graph_depth=8, value_shards=256),
 }
 TIME_CAP = {"quick": 600, "thorough": 3600}
 N_OPS_HINT = 38
@@ -70,10 +70,10 @@ def _ops(tier):
 
 
 def _values(tier):
+    """Stream of (index, spec): the value space, then the cycle shapes."""
+    import itertools
     from mc.ref import hs_asmodel as H
-    if tier not in _VALS:
-        _VALS[tier] = H.value_space(tier) + H.cycle_space()
-    return _VALS[tier]
+    return enumerate(itertools.chain(H.value_space(tier), H.cycle_space()))
 
 
 def bounds(tier):
@@ -83,6 +83,7 @@ def bounds(tier):
             "max_history_length": b["depth"], "max_faults_per_call": b["call_faults"], "max_faults_per_history": b["total_faults"],
             "state_graph_search_depth": b["graph_depth"],
             "value_leaves": [repr(x) for x in H.LEAVES_FULL], "nesting_pool": [repr(x) for x in H.LEAVES_SMALL[tier]],
+            "inner_container_max_elements": H.INNER_LEN[tier],
             "container_kinds": H.KINDS, "cycle_shapes": "anchor in {list, dict} x chain of <=2 of {list,tuple,dict,List,Tuple,Set,Dict,Expression} x back edge first/last x every root"}
 
 
@@ -284,11 +285,11 @@ def _values_shard(acc, tier, i, n):
     """Every value / cycle shape: history [value, FOLLOW] on the real module."""
     from mc import hist
     from mc.ref import hs_asmodel as H
-    vals = _values(tier)
     system = AsModelSystem([], 0, acc, deep=True, use_fresh=False)
     follow_fresh = H.fresh_outcome(FOLLOW, [])
-    for idx in range(i, len(vals), n):
-        spec = vals[idx]
+    for idx, spec in _values(tier):
+        if idx % n != i:
+            continue
         history = [[spec, []], [FOLLOW, []]]
         ctx = system.reset()
         ps = system.step(ctx, history[0])
